@@ -155,15 +155,28 @@ impl C03 {
                 expect_iso(ctx, "twist", "is-the-symmetry", "objects", &p, &POh::twist(&a, &b), &input);
             }
         }
+        // identities and types through the trait entry points as well
+        if let Some((ti, src, tgt)) = lib(ctx, "Arrow::identity/source/target", "objects", &input, || {
+            let i = <S as Arrow>::identity(sf(ab.clone()));
+            let (s, t) = (<S as Arrow>::source(&i).0 .0.clone(), <S as Arrow>::target(&i).0 .0.clone());
+            (i, s, t)
+        }) {
+            if let Some(p) = walk(ctx, "Arrow::identity", "objects", &ti, &input) {
+                ctx.check(src == ab && tgt == ab && p.e.is_empty(), "Arrow::identity/type/value/objects", || json!({"input": input(), "observed": show(&p)}));
+                expect_iso(ctx, "Arrow::identity", "is-the-identity", "objects", &p, &POh::identity(ab.clone()), &input);
+            }
+        }
+        let sugar = a.len() % 2 == 1;
+        ctx.count(if sugar { "via:operator_sugar" } else { "via:methods" });
         // self-inverse
-        let lhs = lib(ctx, "twist;twist", "objects", &input, || tw(&a, &b).compose(&tw(&b, &a))).flatten();
+        let lhs = lib(ctx, "twist;twist", "objects", &input, || cmp(sugar, &tw(&a, &b), &tw(&b, &a))).flatten();
         law(ctx, "twist-self-inverse", "objects", lhs, Some(id_on(&ab)), &input);
         // hexagons
         let lhs = lib(ctx, "twist", "objects", &input, || tw(&a, &bc));
-        let rhs = lib(ctx, "hexagon", "objects", &input, || tw(&a, &b).tensor(&id_on(&c)).compose(&id_on(&b).tensor(&tw(&a, &c)))).flatten();
+        let rhs = lib(ctx, "hexagon", "objects", &input, || cmp(sugar, &ten(sugar, &tw(&a, &b), &id_on(&c)), &ten(sugar, &id_on(&b), &tw(&a, &c)))).flatten();
         law(ctx, "hexagon-1", "objects", lhs, rhs, &input);
         let lhs = lib(ctx, "twist", "objects", &input, || tw(&ab, &c));
-        let rhs = lib(ctx, "hexagon", "objects", &input, || id_on(&a).tensor(&tw(&b, &c)).compose(&tw(&a, &c).tensor(&id_on(&b)))).flatten();
+        let rhs = lib(ctx, "hexagon", "objects", &input, || cmp(sugar, &ten(sugar, &id_on(&a), &tw(&b, &c)), &ten(sugar, &tw(&a, &c), &id_on(&b)))).flatten();
         law(ctx, "hexagon-2", "objects", lhs, rhs, &input);
         ctx.sample("twist_laws", || input());
     }
@@ -247,6 +260,25 @@ impl C03 {
         let lhs = lib(ctx, "lax::tensor", "lax", &input, || ten(&ten(&xf, &xg), &xh).to_strict());
         let rhs = lib(ctx, "lax::tensor", "lax", &input, || ten(&xf, &ten(&xg, &xh)).to_strict());
         law(ctx, "lax-tensor-associativity", "lax", lhs, rhs, &input);
+        // identity laws and associativity of composition through the lax representation, against the model
+        if let (Ok((sf_, _)), Ok((sg_, _))) = (pf.strict(), pg.strict()) {
+            let ida = L::identity(f.src_type());
+            let idb = L::identity(g.tgt_type());
+            let lhs = lib(ctx, "lax::compose", "lax", &input, || Arrow::compose(&ida, &Arrow::compose(&xf, &xg)?).map(|x| x.to_strict())).flatten();
+            let rhs = lib(ctx, "lax::compose", "lax", &input, || Arrow::compose(&Arrow::compose(&xf, &xg)?, &idb).map(|x| x.to_strict())).flatten();
+            if let (Some(pl), Some(m)) = (law(ctx, "lax-identity-laws", "lax", lhs, rhs, &input), sf_.compose(&sg_)) {
+                expect_iso(ctx, "lax::compose", "identities-are-units-model", "lax", &pl, &m, &input);
+            }
+            // (f;g);t = f;(g;t) with t the symmetry on g's target type split in two
+            let ty = g.tgt_type();
+            let cut = ty.len() / 2;
+            let t = <L as SymmetricMonoidal>::twist(ty[..cut].to_vec(), ty[cut..].to_vec());
+            let lhs = lib(ctx, "lax::compose", "lax", &input, || Arrow::compose(&Arrow::compose(&xf, &xg)?, &t).map(|x| x.to_strict())).flatten();
+            let rhs = lib(ctx, "lax::compose", "lax", &input, || Arrow::compose(&xf, &Arrow::compose(&xg, &t)?).map(|x| x.to_strict())).flatten();
+            if let (Some(pl), Some(m)) = (law(ctx, "lax-compose-associativity", "lax", lhs, rhs, &input), sf_.compose(&sg_).and_then(|x| x.compose(&POh::twist(&ty[..cut], &ty[cut..])))) {
+                expect_iso(ctx, "lax::compose", "associative-model", "lax", &pl, &m, &input);
+            }
+        }
         ctx.sample("lax_laws", || input());
     }
 }
@@ -263,7 +295,7 @@ impl Monitor for C03 {
          pairs of composable pairs (interchange), arbitrary pairs incl. non-monogamous and cyclic ones (naturality of the symmetry, jointly and per argument), object lists of \
          length 0-4 over 2 labels (symmetry type, self-inverse, both hexagons). In half of the instances every hyperedge gets a unique label so that wiring, not label histograms, \
          decides. Both sides are computed through the public API (compose, tensor, identity, twist; in half of the instances through the operator sugar `>>` and `|` instead of the methods) and compared by the isomorphism search with pinned interfaces. non-trivial = \
-         instance with >=1 hyperedge and a non-empty boundary (for object laws: both objects non-empty); distinct = hash of the instance."
+         instance with >=1 hyperedge and a non-empty boundary (for object laws: both objects non-empty); distinct = hash of the instance. Also: identity / source / target through the Arrow trait, the twist laws through the operator sugar, and through the lax representation (operands with pending unifications) interchange, associativity of tensor and of composition and the identity laws, the latter two also against the model."
     }
     fn corpus_len(&self) -> u64 {
         5
@@ -287,6 +319,9 @@ impl Monitor for C03 {
             ("via:operator_sugar", 200),
             ("via:methods", 200),
             ("law:lax-interchange", 100),
+            ("law:lax-identity-laws", 100),
+            ("law:lax-compose-associativity", 100),
+            ("api:Arrow::identity/source/target", 100),
             ("via:lax_tensor_assign", 50),
         ]
     }
